@@ -2368,6 +2368,12 @@ func (c *Conn) isHandshakeCompletedSuccessfully() bool {
 func (c *Conn) negotiateVersionServer(ctx context.Context) error {
 	for {
 		if err := c.readAndBufferNoFSM(ctx); err != nil {
+			if c.classifyReadLoopError(err) == readLoopContinue {
+				// e.g. a warning alert: ignored, as the read loop does once
+				// the handshake state machine runs.
+				continue
+			}
+
 			return err
 		}
 		if ok, err := c.pickVersionFromClientHello(); err != nil {
@@ -2413,6 +2419,10 @@ func (c *Conn) negotiateVersionClient(ctx context.Context) ([]*dtlsflight.Packet
 
 	for {
 		if err := c.readAndBufferNoFSM(ctx); err != nil {
+			if c.classifyReadLoopError(err) == readLoopContinue {
+				continue
+			}
+
 			return nil, err
 		}
 		if ok, err := c.pickVersionFromServerResponse(); err != nil {
